@@ -32,4 +32,5 @@ let () =
   | "cvol" -> per_line M_cvol.line
   | "csess" -> per_line M_csess.line
   | "csess2" -> per_line M_csess2.line
+  | "cfsinfo" -> per_line M_cfsinfo.line
   | _ -> prerr_endline ("unknown mode " ^ mode); exit 2
